@@ -43,10 +43,25 @@ def states(tier, seed):
         if pf == "camber" and nx < 3:
             continue
         st.append(dict(part="disp", nx=nx, ny=ny, side=side, pf=pf, origin=fo, fam=fam))
+        if nx == 3 and pf != "camber":
+            # the same surface whose dictionary also carries the documented geometry keys (reference axis, sweep, twist ...)
+            st.append(dict(part="disp", nx=nx, ny=ny, side=side, pf=pf, origin=fo, xkeys=True, fam=fam))
+            st.append(dict(part="loads", nx=nx, ny=ny, side=side, pf=pf, origin=fo, xkeys=True, fam=fam))
     return st, 0
 
 
+# documented geometry keys that the transfer components have no business reading: their presence must change nothing
+XKEYS = dict(ref_axis_pos=0.6, taper=0.7, sweep=10.0, dihedral=5.0, span=12.0, chord_cp=np.array([1.0, 1.2]), twist_cp=np.array([2.0, -1.0]), xshear_cp=np.array([0.0, 0.3]), zshear_cp=np.array([0.0, 0.2]))
+
+
 def surf_of(s, mesh):
+    surf = _surf_of(s, mesh)
+    if s.get("xkeys"):
+        surf.update({k: (v.copy() if isinstance(v, np.ndarray) else v) for k, v in XKEYS.items()})
+    return surf
+
+
+def _surf_of(s, mesh):
     sym = s["side"] != "full"
     if s.get("origin") == "wingbox":
         return builders.struct_surface("w", mesh, sym, "wingbox")
